@@ -1,7 +1,41 @@
-(* Observation commands: filled in by the corresponding property work; definitions only. *)
+(* Observation commands of the requirement domain (C08).  Definitions only.
+   r.parse s   -> "E" (InvalidRequirement) | "?" (marker literal with a backslash: outside the model) |
+                  OK|name|sorted extras joined by ","|str(specifier)|U<url> or -|M<str(marker)> or -|str(r)
+   r.rt s      -> "E" | "?" | RT|str(r)|<r.parse of str(r)>|T/F (Requirement(str(r)) == r): the round trip of str()
+   r.eq a b    -> "E" if either is invalid, "?" if either is outside the model, else T/F (Requirement.__eq__) *)
 From Coq Require Import List NArith Bool String.
 Import ListNotations.
-Require Import Show.
+Require Import Show MText MkModel SpecContains ReqModel.
 Open Scope N_scope.
 
-Definition run_req (cmd : list N) (args : list (list N)) : option (list N) := None.
+Definition obs_req (s : list N) : list N :=
+  match Requirement s with
+  | RqInvalid => asc "E"
+  | RqOracle => asc "?"
+  | RqOk r =>
+      fields [asc "OK"; q_name r; rq_join [44] (rq_extras_sorted r); rq_set_str (q_specs r);
+              match q_url r with Some u => 85 :: u | None => [45] end;
+              match q_marker r with Some m => 77 :: format_marker m | None => [45] end;
+              req_str r]
+  end.
+Definition obs_req_eq (a b : list N) : list N :=
+  match Requirement a, Requirement b with
+  | RqOk x, RqOk y => show_bool (req_eq x y)
+  | RqOracle, _ | _, RqOracle => asc "?"
+  | _, _ => asc "E"
+  end.
+
+Definition obs_req_rt (s : list N) : list N :=
+  match Requirement s with
+  | RqInvalid => asc "E"
+  | RqOracle => asc "?"
+  | RqOk r =>
+      fields [asc "RT"; req_str r; obs_req (req_str r);
+              match Requirement (req_str r) with RqOk r' => show_bool (req_eq r r') | _ => [45] end]
+  end.
+
+Definition run_req (cmd : list N) (args : list (list N)) : option (list N) :=
+  if seqb cmd (asc "r.parse") then Some (obs_req (nth_str 0 args))
+  else if seqb cmd (asc "r.rt") then Some (obs_req_rt (nth_str 0 args))
+  else if seqb cmd (asc "r.eq") then Some (obs_req_eq (nth_str 0 args) (nth_str 1 args))
+  else None.
